@@ -148,9 +148,15 @@ EXPORT errno_t _strncat_s_chk(char *restrict dest, rsize_t dmax,
     else if (unlikely(slen == 0)) {
         /* Special case, analog to msvcrt: when dest is big enough
            return EOK, but clear dest. */
-        errno_t error = (strnlen_s(dest, dmax) < dmax) ? EOK : ESZEROL;
-        handle_error(dest, dmax, "strncat_s: slen is 0", error);
-        return RCNEGATE(error);
+        rsize_t len = strnlen_s(dest, dmax);
+        if (len < dmax) { /* nothing to append: clear the rest of dest */
+#ifdef SAFECLIB_STR_NULL_SLACK
+            memset(&dest[len], 0, dmax - len);
+#endif
+            return RCNEGATE(EOK);
+        }
+        handle_error(dest, dmax, "strncat_s: slen is 0", ESZEROL);
+        return RCNEGATE(ESZEROL);
     }
     if (srcbos == BOS_UNKNOWN) {
         BND_CHK_PTR_BOUNDS(src, slen);
